@@ -9,7 +9,7 @@ import os
 import random
 
 from . import tlc
-from .book_session import BookSession
+from .book_session import BookSession, Broken
 from .common import WORK, MachineryError, dumps, import_pams, sub_seed
 
 import_pams()
@@ -29,12 +29,15 @@ def tick_grid(tier, seed):
             reqs = sorted(rng.sample(reqs, 96) + [1, den - 1, den, den + 1, 2 * den, MAXREQ])
         for chunk in range(0, len(reqs), 64):
             s = BookSession(tick=tick, den=den, exact=True, p0=16 * den)
-            for req in reqs[chunk:chunk + 64]:
-                for buy in (True, False):
-                    e = s.submit(buy, False, req, 1, 0)
-                    if e["out"] == "ok":
-                        s.cancel(e["id"])
-            s.end()
+            try:
+                for req in reqs[chunk:chunk + 64]:
+                    for buy in (True, False):
+                        e = s.submit(buy, False, req, 1, 0)
+                        if e["out"] == "ok":
+                            s.cancel(e["id"])
+                s.end()
+            except Broken:
+                pass
             h = s.header()
             h["src"] = "tick-grid"
             h["flavour"] = "tick=%s" % tick
@@ -51,14 +54,17 @@ def decimal_grid(seed):
     for tick in (0.1, 0.01, 0.00001, 0.3, 0.7, 1e-3):
         for _ in range(25):
             s = BookSession(tick=tick, den=2, exact=False, p0=2000)
-            for _ in range(64):
-                lvl = rng.randint(1, 5000)
-                frac = rng.choice([0.0, 0.0, 0.25, 0.5, 0.9999, 1e-9])
-                px = lvl * tick + frac * tick
-                e = s.submit(rng.random() < 0.5, False, lvl * 2, 1, 0, req_float=px)
-                if e["out"] == "ok":
-                    s.cancel(e["id"])
-            s.end()
+            try:
+                for _ in range(64):
+                    lvl = rng.randint(1, 5000)
+                    frac = rng.choice([0.0, 0.0, 0.25, 0.5, 0.9999, 1e-9])
+                    px = lvl * tick + frac * tick
+                    e = s.submit(rng.random() < 0.5, False, lvl * 2, 1, 0, req_float=px)
+                    if e["out"] == "ok":
+                        s.cancel(e["id"])
+                s.end()
+            except Broken:
+                pass
             h = s.header()
             h["src"] = "tick-decimal"
             h["flavour"] = "tick=%s" % tick
@@ -81,13 +87,17 @@ def permutations(tier, seed):
             multiset.append((rng.random() < 0.5, mo, (mid + rng.randint(-2, 2)) * den, rng.randint(1, 3)))
         for perm in itertools.permutations(range(size)):
             s = BookSession(tick=1.0, den=den, exact=True, p0=mid * den)
-            if rng.random() < 0.5:
-                s.tick()
-            for i in perm:
-                buy, mo, req, vol = multiset[i]
-                s.submit(buy, mo, req, vol, 0)
-            s.match()
-            s.end()
+            pre_tick = rng.random() < 0.5
+            try:
+                if pre_tick:
+                    s.tick()
+                for i in perm:
+                    buy, mo, req, vol = multiset[i]
+                    s.submit(buy, mo, req, vol, 0)
+                s.match()
+                s.end()
+            except Broken:
+                pass
             h = s.header()
             h["src"] = "permutation"
             h["flavour"] = "set%d" % k
